@@ -187,6 +187,12 @@ def r3_filters(ctx):
                 if a and a[0] == 'cmp' and a[1] == 'ne' and ('MAX' in (show_c(a[2]) + show_c(a[3])) or ('int', 18446744073709551615) in (a[2], a[3])):
                     ok = True
         ctx.check(ok, 'remap-and-drop', 'remaining edges are remapped to the new node ids and edges to removed nodes are dropped', f.where())
+        # ... on every returning path (no shortcut around the pass: it is also what drops edges into removed nodes)
+        rs = [s for s in f.calls() if s.name.endswith(('Vec::retain_mut', 'Vec::retain')) and f.loops_containing(s.b)]
+        if ctx.floor('edge re-index pass in filter_nodes', len(rs), 1):
+            hdrs = f.loops_containing(rs[0].b)
+            ctx.check(any(f.postdominates(h, 0) for h in hdrs), 'reindex-on-every-path',
+                      'filter_nodes runs the edge pass (remap + drop edges into removed nodes) on every returning path', rs[0].where())
     g = ctx.anchor(T + '::filter_edges')
     if g:
         ret = [s for s in g.calls() if s.name.endswith('Vec::retain')]
